@@ -25,6 +25,26 @@ def root_name(node):
     return node.id if isinstance(node, ast.Name) else None
 
 
+def set_names_of(path):
+    """names / attributes of this file that are bound to a Python set somewhere (set display, set comprehension, set() / frozenset() call)"""
+    tree = ast.parse(open(path, encoding="utf-8").read())
+    names = set()
+    for n in ast.walk(tree):
+        if isinstance(n, (ast.Assign, ast.AnnAssign)):
+            val = n.value
+            is_set = isinstance(val, (ast.Set, ast.SetComp)) or (isinstance(val, ast.Call) and isinstance(val.func, ast.Name) and val.func.id in ("set", "frozenset"))
+            if is_set:
+                for t in (n.targets if isinstance(n, ast.Assign) else [n.target]):
+                    if isinstance(t, ast.Attribute):
+                        names.add(t.attr)
+                    elif isinstance(t, ast.Name):
+                        names.add(t.id)
+    return names
+
+
+GLOBAL_SET_NAMES = set()
+
+
 def scan_file(path, rel):
     tree = ast.parse(open(path, encoding="utf-8").read())
     module_names = set()
@@ -41,7 +61,7 @@ def scan_file(path, rel):
                 module_names.add((a.asname or a.name).split(".")[0])
     writes, orders = [], []
     # attributes that hold a Python set: `self.x = set()` / set display / set comprehension / `x: Set[...] = ...`
-    set_attrs = set()
+    set_attrs = set(GLOBAL_SET_NAMES)          # sets defined in any file of the package: they are reached as module.NAME or through an import
     for n in ast.walk(tree):
         if isinstance(n, (ast.Assign, ast.AnnAssign)):
             val = n.value
@@ -153,6 +173,11 @@ def scan_file(path, rel):
 def build(outpath):
     base = os.path.join(REPO, "metasequoia_sql")
     writes, orders, nfiles = [], [], 0
+    GLOBAL_SET_NAMES.clear()
+    for root, _, files in sorted(os.walk(base)):
+        for fn in sorted(files):
+            if fn.endswith(".py"):
+                GLOBAL_SET_NAMES.update(set_names_of(os.path.join(root, fn)))
     for root, _, files in sorted(os.walk(base)):
         for fn in sorted(files):
             if fn.endswith(".py"):
